@@ -249,6 +249,8 @@ struct CtxState {
     freed: bool,
     /// (order id, payload handle index not tracked) pending orders seen and not yet answered
     unanswered: Vec<u64>,
+    /// (order id, the `k` of its payload `{"k": N}`) for every order reported since the last prepare
+    order_keys: Vec<(u64, i64)>,
     /// payload handles of every order this context ever reported ("owned by context": the host
     /// never frees them, and may look at them for as long as the context lives)
     payloads: Vec<*mut TsRunValue>,
@@ -262,6 +264,12 @@ struct CtxState {
     global_hv_unknown: bool,
     has_cb: bool,
     finished_value: Option<String>,
+}
+
+/// What the host answered to the (first) order whose payload was `{"k": key}`.
+fn answer_for(st: &CtxState, key: i64) -> Option<Value> {
+    let id = st.order_keys.iter().find(|(_, k)| *k == key).map(|(id, _)| *id)?;
+    st.expected_answers.iter().find(|(i, _)| *i == id).map(|(_, m)| m.clone())
 }
 
 struct Exec<'a> {
@@ -541,15 +549,17 @@ impl<'a> Exec<'a> {
                         let st = &self.ctxs[c];
                         let expected: Option<String> = match pi {
                             0 if !st.global_hv_unknown => Some(format!("s:{}", serde_json::to_string(&st.global_hv.clone().unwrap_or(Value::Null)).unwrap_or_default())),
-                            1 => st.expected_answers.first().map(|(_, m)| format!("s:{}", serde_json::to_string(m).unwrap_or_default())),
-                            2 if st.expected_answers.len() >= 2 => Some(format!(
-                                "s:{}",
-                                serde_json::to_string(&json!([st.expected_answers[0].1, st.expected_answers[1].1])).unwrap_or_default()
-                            )),
-                            101 if st.expected_answers.len() >= 2 => Some(format!(
-                                "s:{}",
-                                serde_json::to_string(&json!([st.expected_answers[0].1, st.expected_answers[1].1])).unwrap_or_default()
-                            )),
+                            // (the answer that counts is the one to the order the PROGRAM issued, payload
+                            // {k:1} / {k:2}: a host function called before the run may have issued others)
+                            1 => answer_for(st, 1).map(|m| format!("s:{}", serde_json::to_string(&m).unwrap_or_default())),
+                            2 => match (answer_for(st, 1), answer_for(st, 2)) {
+                                (Some(a), Some(b)) => Some(format!("s:{}", serde_json::to_string(&json!([a, b])).unwrap_or_default())),
+                                _ => None,
+                            },
+                            101 => match (answer_for(st, 1), answer_for(st, 2)) {
+                                (Some(a), Some(b)) => Some(format!("s:{}", serde_json::to_string(&json!([a, b])).unwrap_or_default())),
+                                _ => None,
+                            },
                             _ => None,
                         };
                         if pi == 100 && !shown.starts_with("s:same") {
@@ -581,6 +591,9 @@ impl<'a> Exec<'a> {
                     for i in 0..res.pending_count {
                         let o = &*res.pending_orders.add(i);
                         self.ctxs[c].unanswered.push(o.id);
+                        let shown_payload = show_handle(self.ctxs[c].ptr, o.payload);
+                        let k = shown_payload.strip_prefix("{\"k\":").and_then(|r| r.strip_suffix('}')).and_then(|n| n.parse::<i64>().ok()).unwrap_or(-1);
+                        self.ctxs[c].order_keys.push((o.id, k));
                         if !o.payload.is_null() && self.ctxs[c].payloads.len() < 32 {
                             self.ctxs[c].payloads.push(o.payload);
                         }
@@ -670,6 +683,7 @@ impl<'a> Exec<'a> {
                             ptr: p,
                             freed: false,
                             unanswered: vec![],
+                            order_keys: vec![],
                             payloads: vec![],
                             promises: vec![],
                             expected_answers: vec![],
@@ -714,6 +728,7 @@ impl<'a> Exec<'a> {
                         let ok = self.unit_result(c, r, "tsrun_prepare", false);
                         self.ctxs[c].prepared = if ok { Some(pi) } else { None };
                         self.ctxs[c].unanswered.clear();
+                        self.ctxs[c].order_keys.clear();
                         self.ctxs[c].expected_answers.clear();
                         self.trace.push_str(&format!("prepare{}:{};", pi, ok));
                     }
